@@ -91,7 +91,7 @@ def run(ctx, b, broken):
                 bad = f"generic_visit visited {len(ev)} nodes, {size} reachable"
         if not bad:
             target = ctx.rng.choice(list(cfgd))
-            for vmode in (0, 1, 2):
+            for vmode in (0, 1, 2, 5, 6, 7):
                 hset = {target, ctx.rng.choice(list(cfgd))}
                 ev = [e.split(US) for e in impl_visit(node, {c: 2 for c in sorted(hset)}, c_ast, vmode).split(RS)]
                 if any((c in hset) != (flag == "1") for c, flag in ev) or len(ev) != size:
